@@ -78,6 +78,16 @@ LinkDown ==
     /\ cur' = IF cur.k = "none" THEN None ELSE [k |-> "stale"]     \* may still complete; means nothing
     /\ UNCHANGED <<txSeq, nextAck, gvars>>
 
+\* The `ss` clock domain is reset: every register returns to its power-on value; a header packet in flight
+\* is cut off.  With the link up the transmitter then waits for a new advertisement, as after link-up.
+DomainReset ==
+    /\ ev' = [e |-> "dreset"]
+    /\ bringup' = FALSE /\ credits' = 0 /\ letter' = 0
+    /\ unacked' = <<>> /\ rp' = 0 /\ resend' = 0 /\ dn' = 0 /\ lbadSeen' = FALSE /\ limbo' = FALSE /\ recovOwed' = FALSE
+    /\ cur' = None
+    /\ gCredRx' = 0 /\ gAccepted' = 0
+    /\ UNCHANGED <<enabled, txSeq, nextAck>>
+
 \* Environment assumptions on the partner's LGOOD n:
 \*  - the first LGOOD after link-up is the advertisement (any n);
 \*  - afterwards, an LGOOD carrying the expected number only acknowledges a header the partner can have
@@ -244,7 +254,7 @@ SentPrefix == \A i \in 1..rp : unacked[i].tx \/ (cur.k = "real" /\ cur.s = unack
 \* C39: a header is retired only by an LGOOD carrying its sequence number (or lost with the link)
 RetireOnlyOnMatchingLgood ==
     [][Len(unacked') < Len(unacked) =>
-          (ev'.e = "down" \/ (ev'.e = "lgood" /\ ev'.n = Head(unacked).s /\ unacked' = Tail(unacked)))]_vars
+          (ev'.e \in {"down", "dreset"} \/ (ev'.e = "lgood" /\ ev'.n = Head(unacked).s /\ unacked' = Tail(unacked)))]_vars
 
 \* C39: real header packets go out in sequence order: each one is the successor of the previous one,
 \* except right after a retry, where transmission restarts at the oldest unacknowledged header; and no
